@@ -8,7 +8,8 @@
    HAND-MAINTAINED: when engine.py changes its behaviour, GuardTie.guards_as_modelled breaks; re-read the handler,
    update Model.v, then this table.  The comment above each handler says which model clause mirrors it.
    Last brought up to date for /repo commits d24c06a (MAC type guard), 3da5f5b (Get: wrapping parameters and
-   wrapped-object type), 229c9a2 (DeriveKey: cryptographic parameters required); format changed to reaching
+   wrapped-object type), 229c9a2 (DeriveKey: cryptographic parameters required), 52cb625 (_process_batch rolls back after a
+   failed item; _process_batch added to the table); format changed to reaching
    conditions so that behaviour-preserving rewrites (guard clause <-> if/else, hoisted attribute reads, dead
    initialisers, conditional expressions, De Morgan, nested if <-> and) give the same table. *)
 From Coq Require Import List String.
@@ -138,5 +139,13 @@ Definition expected_guards : list (string * list string) := [
     "raise ItemNotFound & <except exc.NoResultFound>";
     "reraise e & <except exc.MultipleResultsFound as e>";
     "raise InvalidField & class_type is None";
-    "return & not (class_type is None)"])
+    "return & not (class_type is None)"]);
+  (* the model lets a refused / crashed operation leave the store as it was: every item runs through _process_operation inside try/except, and since /repo 52cb625 a failed item is followed by a rollback of whatever it left uncommitted; Continue/Stop handling is outside the model (the harness always sends Continue) *)
+  ("_process_batch", [
+    "raise InvalidMessage & len(request_batch) > 1 & <for batch_item in request_batch> & not (batch_item.unique_batch_item_id)";
+    "raise InvalidMessage & <with self._data_store_session_factory()> & <for batch_item in request_batch> & len(request_batch) > 1 & not (batch_item.unique_batch_item_id)";
+    "call _process_operation & <with self._data_store_session_factory()> & <for batch_item in request_batch> & <try>";
+    "rollback & <with self._data_store_session_factory()> & <for batch_item in request_batch> & error_occurred";
+    "break & <with self._data_store_session_factory()> & <for batch_item in request_batch> & error_occurred & batch_handling == enums.BatchErrorContinuationOption.STOP";
+    "return"])
 ].
